@@ -564,8 +564,8 @@ def run(ctx):
             runs.append(("fresh", "-seed %d -n 260 -len 30 -engines mem,pebble" % ctx.seed))
             runs.append(("rocks", "-seed %d -n 24 -len 30 -engines rocksdb" % (ctx.seed + 7)))
         else:
-            runs.append(("fresh", "-seed %d -n 3000 -len 40 -engines mem,pebble" % ctx.seed))
-            runs.append(("rocks", "-seed %d -n 300 -len 40 -engines rocksdb" % (ctx.seed + 7)))
+            runs.append(("fresh", "-seed %d -n 9000 -len 40 -engines mem,pebble" % ctx.seed))
+            runs.append(("rocks", "-seed %d -n 1200 -len 40 -engines rocksdb" % (ctx.seed + 7)))
 
     all_mism, all_fail, total, hist_all, samples, distinct = [], [], 0, {}, [], set()
     for sub, args in runs:
